@@ -85,7 +85,7 @@ pub fn cases(tier: Tier) -> Vec<Case> {
         for coins in 0..=3u8 {
             for messages in 0..=2u8 {
                 for blobs in 0..=1u8 {
-                    for processed_txs in 0..=2u8 {
+                    for processed_txs in if tier == Tier::Thorough { vec![0u8, 1, 2] } else { vec![0u8, 2] } {
                         for height in [0u32, 3] {
                             for encoding in encodings(tier) {
                                 out.push(Case {
@@ -143,7 +143,7 @@ pub fn run_case(rt: &tokio::runtime::Runtime, case: &Case) -> Result<Vec<Violati
         let view = src.on_chain().latest_view().map_err(|e| e.to_string())?;
         view.storage::<FuelBlocks>().root(&src_height).map_err(|e| e.to_string())?
     };
-    let dir = tempfile::tempdir().map_err(|e| e.to_string())?;
+    let dir = tempfile::Builder::new().prefix("vh-genesis-").tempdir().map_err(|e| e.to_string())?;
     if let Err(e) = export(rt, &src, dir.path(), enc) {
         v.push(viol(format!("{}/export_failed", enc.kind()), format!("exporting the source state failed: {e:#}")));
         return Ok(v);
@@ -230,6 +230,8 @@ pub fn main(cli: &Cli) -> ! {
     }
     let mut run = Run::new(cli, "exploration");
     let cs = cases(cli.tier);
+    // signature -> smallest case index showing it (stable witness independent of thread scheduling)
+    let first_witness: std::sync::Mutex<std::collections::BTreeMap<String, (usize, String)>> = Default::default();
     let sw = par_sweep(
         "export_regenesis_roundtrip",
         "a case (source shape, encoding, group size) is non-trivial when the source state has at least one entry in a state table; distinct by (shape, encoding)",
@@ -241,6 +243,17 @@ pub fn main(cli: &Cli) -> ! {
             let vs = RT.with(|rt| run_case(rt, case)).unwrap_or_else(|e| machinery_failure(&format!("case {i}: {e}")));
             let s = &case.shape;
             let nontrivial = (s.coins as usize + s.messages as usize + s.contracts.len() + s.blobs as usize + s.processed_txs as usize > 0).then(|| mcx::hash_of(&(s, &case.encoding)));
+            if !vs.is_empty() {
+                let mut fw = first_witness.lock().unwrap();
+                for x in &vs {
+                    match fw.get(&x.sig) {
+                        Some((j, _)) if *j <= i => {}
+                        _ => {
+                            fw.insert(x.sig.clone(), (i, x.msg.clone()));
+                        }
+                    }
+                }
+            }
             let mut sigs: Vec<String> = vs.iter().map(|x| x.sig.clone()).collect();
             sigs.sort();
             sigs.dedup();
@@ -255,29 +268,25 @@ pub fn main(cli: &Cli) -> ! {
             }
         },
     );
-    // stable witnesses: for every signature report the first case in enumeration order showing it
+    // stable witnesses: for every signature report the first case in enumeration order showing it,
+    // re-executed once more to confirm
     let mut sw = sw;
     {
         let rt = rt();
-        let mut open: Vec<usize> = (0..sw.violations.len()).collect();
-        for c in cs.iter() {
-            if open.is_empty() {
-                break;
-            }
-            let vs = run_case(&rt, c).unwrap_or_else(|e| machinery_failure(&e));
-            open.retain(|&k| match vs.iter().find(|x| x.sig == sw.violations[k].sig) {
+        let fw = first_witness.into_inner().unwrap();
+        for v in sw.violations.iter_mut() {
+            let Some((idx, _)) = fw.get(&v.sig) else { machinery_failure("C39: violation without witness index") };
+            let again = run_case(&rt, &cs[*idx]).unwrap_or_else(|e| machinery_failure(&e));
+            match again.iter().find(|x| x.sig == v.sig) {
                 Some(x) => {
-                    sw.violations[k].msg = x.msg.clone();
-                    sw.violations[k].history = json!(c);
-                    sw.violations[k].confirmed_by_second_replay = true;
-                    false
+                    v.msg = x.msg.clone();
+                    v.history = json!(cs[*idx]);
+                    v.confirmed_by_second_replay = true;
                 }
-                None => true,
-            });
+                None => machinery_failure("C39: a violation did not reproduce on re-execution"),
+            }
         }
-        if !open.is_empty() {
-            machinery_failure("C39: a violation did not reproduce on re-execution");
-        }
+        sw.violations.sort_by(|a, b| a.sig.cmp(&b.sig));
     }
     // determinism self-check: a few cases twice
     {
@@ -297,7 +306,7 @@ pub fn main(cli: &Cli) -> ! {
         machinery_failure("C39: an encoding was never exercised");
     }
     run.add_sweep(sw);
-    run.note("shapes", json!({"coins": "0..=3", "messages": "0..=2", "contracts": if cli.tier == Tier::Thorough { "none | one | two (ordered) of slots{0,1,5} x balances{0,2}" } else { "none | one of slots{0,1,5} x balances{0,2} | two fixed pairs" }, "blobs": "0..=1", "processed_txs": "0..=2", "height": [0, 3]}));
+    run.note("shapes", json!({"coins": "0..=3", "messages": "0..=2", "contracts": if cli.tier == Tier::Thorough { "none | one | two (ordered) of slots{0,1,5} x balances{0,2}" } else { "none | one of slots{0,1,5} x balances{0,2} | two fixed pairs" }, "blobs": "0..=1", "processed_txs": if cli.tier == Tier::Thorough { "0..=2" } else { "{0,2}" }, "height": [0, 3]}));
     run.note("encodings", json!(encodings(cli.tier)));
     run.assume("source states are written through the real table blueprints into in-memory databases (blocks 0..=h with one script transaction in block 1); the storage backend (RocksDB vs in-memory) is not part of the property");
     run.assume("'identical chain height' is read as: the snapshot records the source height and block tree root, and the regenesis block sits at source height + 1 with prev_root = source block tree root (regenesis continues the chain by design)");
